@@ -219,3 +219,15 @@ type writeHalf struct {
 
 func (w *writeHalf) Write(p []byte) (int, error) { return w.e.Write(p) }
 func (w *writeHalf) Close() error                { w.e.w.closeWrite(); return w.err }
+
+// StdinLikeReader presents this end's incoming direction the way a process sees its standard input: Close
+// returns err (possibly nil) and does NOT interrupt a Read that is already waiting for data.
+func (e *End) StdinLikeReader(closeErr error) io.ReadCloser { return &stdinReader{e, closeErr} }
+
+type stdinReader struct {
+	e   *End
+	err error
+}
+
+func (r *stdinReader) Read(p []byte) (int, error) { return r.e.Read(p) }
+func (r *stdinReader) Close() error               { return r.err }
